@@ -182,6 +182,19 @@ def check(prog, run):
     c04.check_seen_scope(prog, run, "D5")
     check_descent(prog, run, "D8")
 
+    # ---- D9 the variable values reach every place that evaluates @skip / @include
+    from .. import ctxparams, nomemo as _nm
+    r9 = run.rule("D9", "in the call-graph closure of MaxDepthValidationRule.__call__, every call from a function holding `variables` "
+                        "to a callee that takes `variables` hands the caller's value on (positionally or by keyword): a call that "
+                        "leaves it to the callee's default evaluates `@skip(if: $v)` below that point against no variables at all - "
+                        "the rule raises a coercion error or measures fields the request skips", 4)
+    inst, probs = ctxparams.check_named(prog, _nm.closure(prog, [call]), "variables")
+    for i in inst:
+        r9.instance(i)
+    for g, n, f, what in probs:
+        run.report(r9, "%s:%s:variables-not-threaded(%s)" % (g.module.name, g.qualname, f.qualname), g.where(n),
+                   "`%s` calls %s with `variables` %s" % (norm_stmt(n, 70), f.qualname, what))
+
     # ---- D6 nothing on the measuring path remembers an earlier answer
     from .. import nomemo
     nomemo.check(prog, run, "D6", [call], "MaxDepthValidationRule.__call__",
